@@ -144,4 +144,62 @@ CHECKS = {
         "assumptions": ["DB level: stream delivery over a leader and across leader changes is checked by the leaderx/clusterx engines when built",
                         "a put and a later range delete covering it in one request: both entries are accepted (operation order is documented)"],
     },
+    "C08": {
+        "level": "exploration",
+        "tests": [
+            {"pkg": "leaderx", "run": "^TestC08_Pipeline$", "quick": 600, "thorough": 12000},
+            {"pkg": "leaderx", "run": "^TestC08_Tracker$", "quick": 40000, "thorough": 1000000},
+        ],
+        "floors": {"concurrent_writers": 0.05, "duplicate_ack": 0.05},
+        "rule": "(a) a real RF=1 LeaderController (real WAL with 4 KiB..1 MiB segments, real Pebble) with 1-12 concurrent writer "
+                "goroutines x 1-8 writes; each writer runs a chain of conditional puts on its own key so every response is "
+                "attributable; a drawn 0-300 us delay is injected on entry to the wrapped Wal.AppendAndSync (between offset "
+                "allocation and append). Oracle: every write succeeds, each response carries the modification count of its own "
+                "request, the leader log holds exactly the acknowledged requests at contiguous offsets 0..N-1, version ids grow "
+                "with the offset (effects applied in offset order), final records equal the last write of each chain. (b) rapid "
+                "state machine on server.NewQuorumAckTracker(rf 1..5, head, commit): NextOffset, in-order AdvanceHeadOffset, "
+                "NewCursorAcker(ack<=head), per-cursor in-order Ack with arbitrary duplicate re-acks, WaitForCommitOffsetAsync in "
+                "offset order after the append; after every action commit<=head, commit monotone, commit == reference rule "
+                "(highest offset whose whole prefix is <= head and acked by >= rf/2 cursors), waiters fire once, in order, only "
+                "at/below commit. Non-trivial: (a) >=2 writers with >=2 writes; (b) a duplicate ack and acks out of "
+                "cross-follower order.",
+        "assumptions": ["(a) covers RF=1; multi-follower ack interleavings are covered by the tracker state machine (b)",
+                        "a write that does not return within 60 s is inconclusive"],
+    },
+    "C14": {
+        "level": "exploration",
+        "tests": [
+            {"pkg": "leaderx", "run": "^TestC14_Sessions$", "quick": 800, "thorough": 20000},
+        ],
+        "floors": {"takeover": 0.1, "leader_change": 0.2},
+        "rule": "rapid state machine over a real RF=1 LeaderController with its real SessionManager: CreateSession (<=3 live), "
+                "generated writes on a 3-7 key pool under live/dead/no session (takeovers by plain puts and by other sessions, "
+                "deletes, range deletes, index declarations), KeepAlive on live and dead sessions, CloseSession, CloseSession "
+                "parked right after it listed its keys (gate on the wrapped KV iterator) while other clients overwrite / "
+                "take over / delete+re-create the listed keys (excluded while the finding is listed), restart of the node + new "
+                "term, new term on the same node. Oracle: responses checked by the model (dead session => "
+                "SESSION_DOES_NOT_EXIST), at a session end exactly the records the session owns at that log position "
+                "disappear and nothing else changes (full ordered dump compared with the model), live sessions and their "
+                "records survive leader changes and still accept heartbeats. Non-trivial: a takeover, a raced close, or a "
+                "close plus a leader change.",
+        "assumptions": ["session timeout 60 s in this test; expiry timing is not exercised here",
+                        "a KeepAlive that does not return within 20 s is inconclusive"],
+    },
+    "C15": {
+        "level": "exploration",
+        "tests": [
+            {"pkg": "leaderx", "run": "^TestC15_Indexes$", "quick": 1000, "thorough": 25000},
+        ],
+        "floors": {"two_indexes_populated": 0.3, "probe_outside_index_range": 0.3},
+        "rule": "rapid state machine over a real RF=1 LeaderController: generated writes with 0-2 index declarations per put over "
+                "2-4 index names that are neighbours in key order (idx, idx0, idx-, id), secondary keys over the adversarial "
+                "alphabet (incl. '/'), overwrites that change/remove declarations, deletes, range deletes, node restart; "
+                "queries through the leader's Read/List/RangeScan with secondary_index_name: list and range-scan over drawn "
+                "non-empty bounds, get with all five comparison types for probes at, between, before the first and after the "
+                "last entry. Oracle: entries derived from the records that exist in the model; results equal the reference "
+                "sorted by secondary key (order inside one secondary key free), returned records exist and are the model's, "
+                "nothing of another index, absent => KEY_NOT_FOUND. Non-trivial: >=2 populated indexes and a probe outside "
+                "[first,last] of its index.",
+        "assumptions": ["secondary keys exclude \\x00/\\x01 (reserved by the key layout); index range bounds are non-empty"],
+    },
 }
